@@ -71,7 +71,7 @@ def modulus(kind):
 # ---------------------------------------------------------------------------------------------
 # generators
 # ---------------------------------------------------------------------------------------------
-ALLOW0 = [True]   # zero-size float arrays cannot be constructed for secfxp (finding D3): switched off per case
+ALLOW0 = [True]   # zero-size arrays: switched off per case (only under --mix32-64bit, see run_case)
 
 
 def rshape(rng, maxdim=3, maxsize=24, mindim=0, allow0=True, mind=1):
@@ -317,7 +317,7 @@ def run_case(case):
     os.environ['MPYC_MAXWORKERS'] = str(case.get('workers', 0))
     name, kind = case['op'], case['kind']
     rng = random.Random(case['seed'])
-    ALLOW0[0] = kind != 'fxp' and not case.get('mix32_64bit')   # zero-size arrays under --mix32-64bit: open finding np_zero_size_mix32_64bit
+    ALLOW0[0] = not case.get('mix32_64bit')   # zero-size arrays under --mix32-64bit: open finding np_zero_size_mix32_64bit
     plan = (OPS.get(name) or DIRECTED[name])['plan'](rng, kind, case.get('force'))
     m, no_prss = case['m'], case['no_prss']
     res = {'case': case, 'status': 'ok', 'lean': [], 'key': plan.get('key'), 'nontrivial': plan.get('nontrivial', True),
